@@ -23,9 +23,10 @@ def StrictArcs (g : Graph) : Prop :=
      | none => g.hi e.1.2 = none
      | some b => leE (b + e.2.time) (g.hi e.1.2) = true)
 
-/-- service time of one vehicle along its walk when early arrivals wait (reference clock starts at 0) -/
+/-- service time of one vehicle along its walk when early arrivals wait (the reference clock starts when the
+    depot's window opens, at `g.lo 0`) -/
 def arrival (g : Graph) (w : ℕ → ℕ) : ℕ → ℚ
-  | 0 => 0
+  | 0 => g.lo 0
   | p + 1 => maxR (arrival g w p + arcTime g (w p) (w (p + 1))) (g.lo (w (p + 1)))
 
 /-! ## helper lemmas -/
@@ -270,15 +271,15 @@ theorem repaired_strict_setDepot_witness_arcs :
 /-- **strict mode: every walk meets all time windows** of the underlying VRPTW (arrive early and wait,
     never late), for every vehicle and every position -/
 theorem strict_walk_time_feasible (I : SeqInst) (hstrict : StrictArcs I.g) (hg : C15.Inv I.g)
-    (hlo : 0 ≤ I.g.lo 0) (h00 : arcTime I.g 0 0 = 0) (w : ℕ → ℕ → ℕ) (hw : Walk I w)
+    (h00 : arcTime I.g 0 0 = 0) (w : ℕ → ℕ → ℕ) (hw : Walk I w)
     (v : ℕ) (hv : v < I.V) (p : ℕ) (hp : p < I.L) :
     leE (arrival I.g (w v) p) (I.g.hi (w v p)) = true := by
   induction p with
   | zero =>
-    show leE 0 (I.g.hi (w v 0)) = true
+    show leE (I.g.lo 0) (I.g.hi (w v 0)) = true
     have hlt := hw.lt v hv 0 hp
     rw [hw.start v hv] at hlt ⊢
-    exact leE_anti hlo (node_window_ok I.g hg 0 hlt)
+    exact node_window_ok I.g hg 0 hlt
   | succ p ih =>
     have ih' := ih (by omega)
     have hjlt := hw.lt v hv (p + 1) hp
@@ -289,12 +290,12 @@ theorem strict_walk_time_feasible (I : SeqInst) (hstrict : StrictArcs I.g) (hg :
     by_cases hi0 : w v p = 0
     · by_cases hp0 : p = 0
       · subst hp0
-        have hT : arrival I.g (w v) 0 = 0 := rfl
-        rw [hT, arcTime_of _ _ _ a harc, zero_add]
+        have hT : arrival I.g (w v) 0 = I.g.lo 0 := rfl
+        rw [hT, arcTime_of _ _ _ a harc]
         have := arc_filed_timing I.g hg _ hmem
         simp only at this
         rw [hi0] at this
-        exact leE_anti (by linarith) this
+        exact this
       · have hj0 := hw.absorb v hv p (by omega) hp hi0
         rw [hi0] at ih' ⊢
         rw [hj0, h00, add_zero]
@@ -385,7 +386,7 @@ theorem nv_walk_t : Walk nv_St nv_w where
 
 /-- all hypotheses of `strict_walk_time_feasible` hold; vehicle 0 reaches `b` (position 2) at time 6 ≤ 9 -/
 example : leE (arrival nv_St.g (nv_w 0) 2) (nv_St.g.hi (nv_w 0 2)) = true :=
-  strict_walk_time_feasible nv_St nv_St_strict.1 nv_St_strict.2 (by decide +kernel) (by decide +kernel) nv_w nv_walk_t
+  strict_walk_time_feasible nv_St nv_St_strict.1 nv_St_strict.2 (by decide +kernel) nv_w nv_walk_t
     0 (by decide) 2 (by decide)
 
 example : arrival nv_St.g (nv_w 0) 2 = 6 ∧ nv_St.g.hi (nv_w 0 2) = some 9 := by decide +kernel
